@@ -662,7 +662,7 @@ class Fn:
         x = n.value.id
         if x not in env or not (isinstance(env[x], tuple) and env[x][0] == "List") or x in self.lean_param_names:
             return None
-        pre, i, ti = self.expr(n.slice, env, "Nat" if not isinstance(n.slice, (ast.UnaryOp, ast.BinOp)) else "Int")
+        pre, i, ti = self.expr(n.slice, env, "Nat" if not isinstance(n.slice, ast.UnaryOp) else "Int")
         if ti == "IntLit":
             self.setlit(i, "Int", n)
             ti = "Int"
@@ -924,7 +924,7 @@ class Fn:
                     for t in tg:
                         if self.lvalue_var(t) == x:
                             bad(n, "mutation of the list whose element the enclosing loop iterates over")
-            if env.get(a[0]) not in ("Nat", "Int"):
+            if env.get(a[0]) not in ("Nat", "Int", "IntLit"):
                 bad(st, "index variable of the iterated element is not an integer")
             v = V(a[0]) if env[a[0]] == "Int" else Tm("({0} : Int)", [V(a[0])])
             return [("guard", Op("≤", C("(%d : Int)" % worst), v))]
@@ -946,6 +946,11 @@ class Fn:
             pre = self.snapshot_guard(st, env)
             p2, lst, ety, pat, patenv = self.iterable(st.iter, st.target, env)
             pre = pre + p2
+            if has_unknown(ety):
+                # element type not known yet (a list that starts empty): skipped in this typing pass, the
+                # pass does not produce output (`unresolved`)
+                self.unresolved = True
+                return after(env)
         self.nloops += 1
         lp = Loop("%s_loop%d" % (self.lean, self.nloops), ("fl%d" if is_while else "tl%d") % self.nloops)
         lp.kind = "while" if is_while else "for"
@@ -1005,13 +1010,12 @@ class Fn:
             if not lp.carried:
                 bad(st, "nested loop without an effect on the variables of the enclosing code")
             lp.fixed = [p for p in self.lean_param_names if p in free and p not in assigned]
-            lp.fixed += [x for x in free if x not in lp.fixed and x not in lp.carried]
-            for x in lp.fixed:
+            extra = [x for x in free if x not in lp.fixed and x not in lp.carried]
+            lp.fixed += extra
+            for x in extra:
                 if x not in env or x == self.FACTS:
                     bad(st, "variable %s may be read before it is assigned" % x)
-                ptypes.setdefault(x, env[x])
-                if x in assigned:
-                    ptypes[x] = env[x]
+                ptypes[x] = env[x]
         else:
             lp.fixed = [p for p in self.lean_param_names if p in free and p not in assigned]
             lp.carried = [x for x in free if x not in lp.fixed]
@@ -1545,10 +1549,26 @@ def normalise(fn, spec):
     if m:
         Rename(m).visit(fn)
         Rename({"__p_" + c: c for c in canon}).visit(fn)
+    allowed = set()
+    if spec.get("fuel"):
+        allowed.add(ast.While)                    # `while` needs an explicit fuel from the spec entry
+    if spec.get("try"):
+        allowed.add(ast.Try)                      # only the restricted oracle form, checked by the compiler
+    ok_nodes = set()
+    for n in ast.walk(fn):
+        # `any(<expr> for x in xs)` / `all(...)`: exactly this generator-expression form
+        if isinstance(n, ast.Call) and isinstance(n.func, ast.Name) and n.func.id in ("any", "all") \
+                and len(n.args) == 1 and not n.keywords and isinstance(n.args[0], ast.GeneratorExp):
+            ok_nodes.add(id(n.args[0]))
+        # `xs.sort(key=lambda x: ...)`: only through a `sort` entry of the spec
+        if isinstance(n, ast.Call) and isinstance(n.func, ast.Attribute) and n.func.attr == "sort" \
+                and spec.get("sort") and len(n.keywords) == 1 and isinstance(n.keywords[0].value, ast.Lambda):
+            ok_nodes.add(id(n.keywords[0].value))
     for n in ast.walk(fn):
         if isinstance(n, (ast.ListComp, ast.SetComp, ast.DictComp, ast.GeneratorExp, ast.Lambda,
                           ast.FunctionDef, ast.While, ast.Try, ast.With, ast.Global, ast.Nonlocal,
-                          ast.Yield, ast.YieldFrom, ast.Await, ast.NamedExpr, ast.Starred)) and n is not fn:
+                          ast.Yield, ast.YieldFrom, ast.Await, ast.NamedExpr, ast.Starred)) and n is not fn \
+                and type(n) not in allowed and id(n) not in ok_nodes:
             bad(n, "construct outside the supported subset (%s)" % type(n).__name__)
     order = []
 
@@ -1613,11 +1633,46 @@ def normalise(fn, spec):
                 if isinstance(t, ast.Subscript):
                     mt = t.value
         if mt is not None:
+            tkeys = {acc: tmpl[1:] for tb in spec.get("types", {}).values() for acc, (tmpl, _) in tb.items()
+                     if tmpl.startswith("@")}
+            while isinstance(mt, ast.Subscript) and ast.unparse(mt) not in state:
+                if isinstance(mt.slice, ast.Constant) and "[%r]" % mt.slice.value in tkeys:
+                    break
+                mt = mt.value                        # xs[i].append(..) / xs[i] = .. mutate xs
             key = ast.unparse(mt)
-            x = state[key][0] if key in state else (mt.id if isinstance(mt, ast.Name) else key)
+            if isinstance(mt, ast.Subscript) and key not in state:
+                x = tkeys["[%r]" % mt.slice.value]
+            else:
+                x = state[key][0] if key in state else (mt.id if isinstance(mt, ast.Name) else key)
             mutated.add(x)
             assigned.add(x)
+    for tb in spec.get("tables", {}):
+        assigned.add(tb)
     return assigned, mutated
+
+
+def apply_ignore(fn, spec):
+    """remove the statements that the spec entry explicitly ignores (exact source text after `ast.unparse`);
+    an entry that matches nothing is an error"""
+    texts = [ast.unparse(ast.parse(t)) for t in spec.get("ignore", [])]
+    hit = set()
+
+    def clean(stmts):
+        out = []
+        for st in stmts:
+            u = ast.unparse(st)
+            if u in texts:
+                hit.add(u)
+                continue
+            for fld in ("body", "orelse", "finalbody"):
+                if isinstance(getattr(st, fld, None), list) and not isinstance(st, ast.Try):
+                    setattr(st, fld, clean(getattr(st, fld)) or ([ast.copy_location(ast.Pass(), st)] if fld == "body" else []))
+            out.append(st)
+        return out
+    fn.body = clean(fn.body) or [ast.Pass()]
+    for t in texts:
+        if t not in hit:
+            bad(fn, "statement that the spec entry ignores is not in the source: %s" % t.split("\n")[0])
 
 
 def blob_hash(data):
@@ -1649,6 +1704,7 @@ def generate(name, repo):
     for spec in mod["functions"]:
         fn = find_function(tree, spec["py"])
         try:
+            apply_ignore(fn, spec)
             assigned, mutated = normalise(fn, spec)
             c = Fn(spec, fn, consts)
             c.assigned, c.mutated, c.helpers = assigned, mutated, helpers
@@ -1658,8 +1714,14 @@ def generate(name, repo):
     out = ["/-", "GENERATED by tools/py2lean.py -- do not edit (overwritten on every run).",
            "source file : %s" % mod["source"],
            "git blob    : %s" % blob,
-           "functions   : %s" % ", ".join(s["py"] for s in mod["functions"]),
-           "-/"]
+           "functions   : %s" % ", ".join(s["py"] for s in mod["functions"])]
+    for sp in mod["functions"]:
+        for t in sp.get("ignore", []):
+            out.append("ignored     : %s: `%s`  (%s)" % (sp["py"], " ".join(x.strip() for x in t.split("\n")),
+                                                       sp.get("ignore_why", "no reason given")))
+        for k, t in enumerate(sp.get("fuel", [])):
+            out.append("fuel        : %s: while loop %d runs on fuel `%s`; out of fuel = none" % (sp["py"], k + 1, t))
+    out += ["-/"]
     out += ["import %s" % i for i in mod["imports"]]
     out += ["set_option linter.unusedVariables false", "", "namespace Artap.Gen.%s" % name]
     for o in mod.get("open", []):
